@@ -2,6 +2,7 @@ import MesaModel.Proofs.Viz
 import MesaModel.Proofs.VizLayers
 import MesaModel.Proofs.VizAltair
 import MesaModel.Proofs.VizInputs
+import MesaModel.Proofs.VizKwargs
 /-!
 # C20 — visualisation data shows each agent once, where it is, as portrayed
 
@@ -270,6 +271,76 @@ theorem C20_hex_marker_at_hexagon_centre (fam : Family) (hf : fam.isHex = true) 
 theorem C20_distinct_locations_distinct_positions (fam : Family) {a b : Loc}
     (h : transform fam a = transform fam b) : a = b :=
   transform_injective fam h
+
+/-! ## plotting keyword arguments -/
+
+/-- `draw_space(space, agent_portrayal, ax=ax, **kw)` with plotting keywords among `alpha` / `edgecolors` /
+    `linewidths`.  The keywords reach the scatter calls of grids and networks only (`kw'`; continuous and Voronoi
+    spaces drop them).  The call is refused exactly when the space holds an agent and some keyword is also
+    specified by some agent's portrayal (`clashes`; the first one in the order edgecolors, linewidths, alpha is
+    named); otherwise the scatter calls are those of `draw_space` without keywords — so
+    `C20_draw_one_marker_per_agent` applies to them — and every one is handed `kw'` in addition. -/
+theorem C20_draw_kwargs {sp : Space} (h : Reachable sp) (heap : Heap) (p : Portrayal) (kw : List (Key × Val)) :
+    ∃ gs kw', drawSpace sp heap p = .ok gs ∧ kw' = (if forwardsKwargs sp.fam then kw else []) ∧
+      ((sp.placed = [] ∨ ∀ kf ∈ optKeys, ¬ clashes (drawEntries sp heap p) kw' kf) →
+        drawSpaceKw sp heap p kw = .ok ⟨gs, kw'⟩) ∧
+      (∀ k, drawSpaceKw sp heap p kw = .error (.conflict k) →
+        sp.placed ≠ [] ∧ ∃ kf ∈ optKeys, kf.1 = k ∧ clashes (drawEntries sp heap p) kw' kf) ∧
+      drawSpaceKw sp heap p kw ≠ .error .attribute := by
+  have w := reachable_wf h
+  have hlen := drawEntries_length w heap p
+  refine ⟨_, _, drawSpace_eq w heap p, rfl, fun hc => ?_, fun k hk => ?_, ?_⟩
+  · rw [drawSpaceKw_eq w]
+    unfold scatterKw
+    rcases hc with he | hc
+    · have : drawEntries sp heap p = [] := List.length_eq_zero_iff.mp (by rw [hlen, he]; rfl)
+      rw [this]; rfl
+    · split
+      · rename_i he
+        have : drawEntries sp heap p = [] := by simpa using he
+        rw [this]; rfl
+      · rw [(kwConflict_none_iff _ _).mpr hc]
+  · rw [drawSpaceKw_eq w] at hk
+    unfold scatterKw at hk
+    split at hk
+    · cases hk
+    · rename_i he
+      cases hc : kwConflict (drawEntries sp heap p) (if forwardsKwargs sp.fam then kw else []) with
+      | none => rw [hc] at hk; cases hk
+      | some k' =>
+        rw [hc] at hk
+        injection hk with hk
+        injection hk with hk
+        subst hk
+        refine ⟨fun hp => ?_, kwConflict_some hc⟩
+        have : (drawEntries sp heap p).length = 0 := by rw [hlen, hp]; rfl
+        exact he (by simpa using List.length_eq_zero_iff.mp this)
+  · rw [drawSpaceKw_eq w]
+    unfold scatterKw
+    split
+    · intro hx; cases hx
+    · cases kwConflict (drawEntries sp heap p) (if forwardsKwargs sp.fam then kw else []) <;> intro hx <;> cases hx
+
+/-- What the keywords do to the markers (matplotlib's side, `applyKw`): a keyword given sets that property of every
+    marker of every call, the other properties stay as the portrayals gave them; without keywords nothing changes. -/
+theorem C20_draw_kwargs_apply_to_every_marker (d : KwDrawing) :
+    d.drawn.flatten = (d.groups.flatMap (·.drawn)).map (applyKw d.kw) ∧
+    (∀ e, (applyKw d.kw e).loc = e.loc ∧ (applyKw d.kw e).s = e.s ∧ (applyKw d.kw e).c = e.c ∧
+      (applyKw d.kw e).marker = e.marker ∧ (applyKw d.kw e).zorder = e.zorder) ∧
+    (∀ e v, d.kw.lookup "alpha" = some v → (applyKw d.kw e).alpha = some v) ∧
+    (∀ e, d.kw.lookup "alpha" = none → (applyKw d.kw e).alpha = e.alpha) ∧
+    (d.kw = [] → d.drawn = d.groups.map (·.drawn)) := by
+  refine ⟨?_, fun e => ⟨rfl, rfl, rfl, rfl, rfl⟩, fun e v hv => by simp [applyKw, hv], fun e hv => by simp [applyKw, hv],
+    fun hk => ?_⟩
+  · unfold KwDrawing.drawn
+    induction d.groups with
+    | nil => rfl
+    | cons g gs ih => simp [List.flatMap_cons, ih]
+  · unfold KwDrawing.drawn
+    rw [hk]
+    apply List.map_congr_left
+    intro g _
+    exact List.map_id'' (fun e => applyKw_nil e) _
 
 /-! ## Altair -/
 
@@ -695,6 +766,14 @@ example : ¬ bindsByKeyword [⟨"self", .posOrKw, false⟩, ⟨"kwargs", .posOrK
   subst e1; subst e2
   have := hr ⟨"kwargs", .posOrKw, false⟩ (by simp) rfl (by simp) (by simp)
   simp at this
+
+-- plotting keywords on the V7 space: alpha as a keyword clashes with agent 1's own alpha; linewidths does not and
+-- reaches both markers
+example : drawSpaceKw v7Space [[("alpha", "50")]] (fun a => if a = 1 then some 0 else none) [("linewidths", "3"), ("alpha", "25")] =
+    .error (.conflict "alpha") := by decide
+
+example : (drawSpaceKw v7Space [[("alpha", "50")]] (fun a => if a = 1 then some 0 else none) [("linewidths", "3")]).toOption.map
+    (·.drawn.map (·.map fun e => (e.alpha, e.linewidths))) = some [[(some "50", some "3"), (none, some "3")]] := by decide
 
 -- ModelCreator: a required parameter given as a Slider, an option dict, two fixed values (one of them a dict)
 def exParams : List (String × ParamVal) :=
